@@ -616,3 +616,10 @@ impl<'a> TryFrom<&'a AsnSource> for AsnSourceUnit<'a> {
         }
     }
 }
+
+#[cfg(librasn_compiler_verif)]
+#[doc(hidden)]
+#[allow(dead_code, unused_imports, clippy::all)]
+pub mod verif_hooks {
+    include!(concat!(env!("LIBRASN_VERIF_DIR"), "/hooks/root.rs"));
+}
